@@ -910,6 +910,9 @@ func (c *Compiler) compileFuncLit(node *parser.FuncLit) error {
 
 	fork := c.fork(c.file, c.modulePath, c.moduleMap, symbolTable)
 	fork.variadic = node.Type.Params.VarArgs
+	// a function literal inside a repeated const expression is compiled once
+	// per spec as well
+	fork.sharedExprs = c.sharedExprs
 	if err := fork.Compile(node.Body); err != nil {
 		return err
 	}
